@@ -117,6 +117,19 @@ fn manifest(c: &Config, surround: usize) -> String {
     }
 }
 
+/// YAML has two extensions: which one the i-th translation file (in loading order) carries
+fn ext_of(ext: &str, i: usize, variant: usize) -> &str {
+    if ext != "yaml" {
+        return ext;
+    }
+    match variant % 4 {
+        0 => "yaml",
+        1 => "yml",
+        2 => ["yaml", "yml"][i % 2],
+        _ => ["yml", "yaml"][i % 2],
+    }
+}
+
 fn materialise(c: &Case, dir: &Path, ext: &str) -> Vec<PathBuf> {
     let _ = std::fs::remove_dir_all(dir);
     std::fs::create_dir_all(dir).unwrap();
@@ -125,7 +138,7 @@ fn materialise(c: &Case, dir: &Path, ext: &str) -> Vec<PathBuf> {
     let ldir = dir.join(&ldir_name);
     std::fs::create_dir_all(&ldir).unwrap();
     // a decoy default directory when a custom one is configured
-    if c.cfg.locales_dir.is_some() {
+    if c.cfg.locales_dir.is_some() && norm(&dir.join(&ldir_name)) != norm(&dir.join("locales")) {
         std::fs::create_dir_all(dir.join("locales")).unwrap();
         for l in ["en", "fr", "de", "it"] {
             std::fs::write(dir.join("locales").join(format!("{l}.{ext}")), "THIS IS NOT A TRANSLATION FILE {{{").unwrap();
@@ -141,7 +154,7 @@ fn materialise(c: &Case, dir: &Path, ext: &str) -> Vec<PathBuf> {
                 for l in &eff {
                     let d = ldir.join(l);
                     std::fs::create_dir_all(&d).unwrap();
-                    let f = d.join(format!("{ns}.{ext}"));
+                    let f = d.join(format!("{ns}.{}", ext_of(ext, expected.len(), c.surround + c.cfg.field_order)));
                     std::fs::write(&f, good(l, ns)).unwrap();
                     expected.push(f);
                     // decoys: other extension, unlisted namespace
@@ -156,7 +169,7 @@ fn materialise(c: &Case, dir: &Path, ext: &str) -> Vec<PathBuf> {
         }
         None => {
             for l in &eff {
-                let f = ldir.join(format!("{l}.{ext}"));
+                let f = ldir.join(format!("{l}.{}", ext_of(ext, expected.len(), c.surround + c.cfg.field_order)));
                 std::fs::write(&f, good(l, "_")).unwrap();
                 expected.push(f);
                 let _ = std::fs::write(ldir.join(format!("{l}.{other_ext}")), "DECOY: not this format {{{");
@@ -368,7 +381,7 @@ pub fn run(tier: Tier) -> i32 {
         rep.sample(json!({"manifest": manifest(&cases[j].cfg, cases[j].surround), "expectation": format!("{:?}", expectation(&cases[j].cfg))}));
     }
     let mut cov = serde_json::Map::new();
-    cov.insert("rule".into(), json!("locales in {missing} + every list of length 0..=3 over {en,fr,de} (duplicates included) x default in {en,fr,de,it (unlisted),missing} x namespaces in {absent,[a],[a,b],[b,a],[a,a],[]} x inherits in {none} + every single entry over {en,fr,de,it,xx}^2 (thorough: + five 2-entry maps) x (locales-dir in {absent,./l10n,a/b/,l10n/,locales,../shared_l10n,.hidden,./.dot/x,..//up,an absolute path} x 5 surrounding-manifest shapes x unknown fields: rotated in quick, a third of the product in thorough); plus every order of the table's fields for 36 configurations (unlisted default, inherits entries naming it, namespaces, custom directory); the directory holds valid files for exactly the expected (namespace, locale) pairs and unparsable decoys everywhere else (other extension, unlisted locale/namespace, default dir when a custom one is set, top-level vs namespace layout); oracle: accept iff required fields present, no duplicates, inherits names known locales (the default counts even if unlisted) and not the default as key; on accept default first, same set, fields as written, tracked files == expected paths; distinct_nontrivial = distinct i18n tables"));
+    cov.insert("rule".into(), json!("locales in {missing} + every list of length 0..=3 over {en,fr,de} (duplicates included) x default in {en,fr,de,it (unlisted),missing} x namespaces in {absent,[a],[a,b],[b,a],[a,a],[]} x inherits in {none} + every single entry over {en,fr,de,it,xx}^2 (thorough: + five 2-entry maps) x (locales-dir in {absent,./l10n,a/b/,l10n/,locales,../shared_l10n,.hidden,./.dot/x,..//up,an absolute path} x 5 surrounding-manifest shapes x unknown fields: rotated in quick, a third of the product in thorough); (YAML build: the files carry .yaml / .yml in four patterns: all one, all the other, alternating either way, in loading order) plus every order of the table's fields for 36 configurations (unlisted default, inherits entries naming it, namespaces, custom directory); the directory holds valid files for exactly the expected (namespace, locale) pairs and unparsable decoys everywhere else (other extension, unlisted locale/namespace, default dir when a custom one is set, top-level vs namespace layout); oracle: accept iff required fields present, no duplicates, inherits names known locales (the default counts even if unlisted) and not the default as key; on accept default first, same set, fields as written, tracked files == expected paths; distinct_nontrivial = distinct i18n tables"));
     cov.insert("exhaustive".into(), json!(true));
     cov.insert("outcome_classes".into(), json!(*classes.lock().unwrap()));
     cov.insert("front_end".into(), json!(ext));
